@@ -172,6 +172,8 @@ def run(ctx):
                             bad = "toml::Table data differs from the model"
                         elif fx["toml_iter"] != want_iter:
                             bad = f"toml::Table iteration order is not the documented one for this configuration ({'insertion' if 'preserve_order' in feats else 'sorted'})"
+                        elif fx.get("eq") == "0":
+                            bad = "toml::Table == depends on the order in which equal entries were inserted in this configuration"
                     if bad is None and x != m and (x.startswith("ok ") != m.startswith("ok ")):
                         ndis += 1
                 # printed text must not depend on the configuration
